@@ -10,6 +10,7 @@ Does not decide: normalisation accuracy, optimiser convergence, moment accuracy 
 """
 from __future__ import annotations
 import ast
+import copy
 from fractions import Fraction
 from ..model import qual
 from ..symx import Expander, TupleV
@@ -141,10 +142,22 @@ def _cdf_ordering(prog, uc, cf):
     stores = [st for st in ast.walk(cf) if isinstance(st, ast.Assign) and isinstance(st.targets[0], ast.Subscript)
               and accname is not None and U(st.targets[0].value) == accname]
     v = f"{xp}[{xp}.argsort()]"
+
+    class _SortForm(ast.NodeTransformer):
+        """sort(x) holds the values of x[x.argsort()]"""
+        def visit_Call(self, n):
+            self.generic_visit(n)
+            if isinstance(n.func, ast.Name) and n.func.id in ("sort", "sorted") and len(n.args) == 1 and not n.keywords and U(n.args[0]) == xp:
+                return ast.parse(v, mode="eval").body
+            return n
+    _term0 = rz.term
+
+    def _term(e, at, **kw):
+        return ast.fix_missing_locations(_SortForm().visit(copy.deepcopy(_term0(e, at, **kw))))
     seen0 = seenk = False
     for st in stores:
         idx = st.targets[0].slice
-        val = rz.term(st.value, st)
+        val = _term(st.value, st)
         if isinstance(idx, ast.Constant) and idx.value == 0:
             full = (pmatch(val, f"quad(self.__call__, self.lwr_limit, {v}[0])[0] if {v}[0] > self.lwr_limit else 0.0") is not None
                     or pmatch(val, f"0.0 if {v}[0] <= self.lwr_limit else quad(self.__call__, self.lwr_limit, {v}[0])[0]") is not None
@@ -162,9 +175,9 @@ def _cdf_ordering(prog, uc, cf):
                     and U(loop.target.elts[0]) == idx.id and isinstance(loop.target.elts[1], ast.Tuple) and len(loop.target.elts[1].elts) == 2:
                 # the same intervals walked as consecutive pairs: for i, (lo, hi) in enumerate(zip(v[:-1], v[1:]), start=1)
                 lo, hi = (U(e) for e in loop.target.elts[1].elts)
-                it = rz.term(loop.iter, loop)
+                it = _term(loop.iter, loop)
                 okl = any(pmatch(it, pt) is not None for pt in (f"enumerate(zip({v}[:-1], {v}[1:]), start=1)", f"enumerate(zip({v}[:-1], {v}[1:]), 1)"))
-                okv = pmatch(rz.term(st.value, st, keep=(lo, hi)), f"quad(self.__call__, {lo}, {hi})[0]") is not None
+                okv = pmatch(_term(st.value, st, keep=(lo, hi)), f"quad(self.__call__, {lo}, {hi})[0]") is not None
                 seenk = okl and okv
             if not seenk:
                 why.append(f"interval {idx.id} is `{U(val)}` in loop `{U(loop.iter) if isinstance(loop, ast.For) else None}`")
